@@ -2,7 +2,8 @@
 REPO ?= /repo
 B ?= build
 CXX := g++
-COMMON := -std=c++17 -I$(REPO)/inc -Isrc -fno-access-control -DCAPPUCCINO_VERIF_HOOKS -pthread -Wall -Wno-unused-function
+BBFLAG := $(if $(BLACKBOX),-DVF_BLACKBOX,)
+COMMON := $(BBFLAG) -std=c++17 -I$(REPO)/inc -Isrc -fno-access-control -DCAPPUCCINO_VERIF_HOOKS -pthread -Wall -Wno-unused-function
 PLAIN := -O2
 SAN := -O1 -g -fsanitize=address,undefined -fno-sanitize-recover=undefined -fno-omit-frame-pointer -D_GLIBCXX_DEBUG -D_GLIBCXX_ASSERTIONS
 KINDS := lru mru fifo lfu lfuda rr tlru utlru ut_map ut_set
@@ -23,8 +24,8 @@ PLAIN_BINS := $(foreach k,$(KINDS),$(B)/seqmc_$(k)_plain)
 SAN_BINS := $(foreach k,$(KINDS),$(B)/seqmc_$(k)_san)
 E2A_BINS := $(foreach k,$(KINDS),$(B)/schedmc_$(k)_asan)
 E2T_BINS := $(foreach k,$(KINDS),$(B)/schedmc_$(k)_tsan)
-E2ASAN := -O1 -g -fsanitize=address -fno-omit-frame-pointer
-E2TSAN := -O1 -g -fsanitize=thread -fno-inline -fno-omit-frame-pointer -rdynamic
+E2ASAN := -Wno-mismatched-new-delete -O1 -g -fsanitize=address -fno-omit-frame-pointer
+E2TSAN := -Wno-mismatched-new-delete -O1 -g -fsanitize=thread -fno-inline -fno-omit-frame-pointer -rdynamic
 
 .PHONY: all setup plain san e2 clean
 all: plain san e2
